@@ -33,7 +33,9 @@ def handle (j : J) : J :=
     match (j.get? "explicit").bind optPermsOfJ, (j.getArr? "scopes").bind (·.mapM permsOfJ),
           (j.get? "tree").bind nodeOfJ with
     | some ex, some scopes, some t =>
-      let slot := scopeNest none scopes
+      -- scopes entered and left again (sequentially) inside the nest, before evaluate is called
+      let pre := ((j.getArr? "pre").bind (·.mapM permsOfJ)).getD []
+      let slot := pre.foldl (fun s p => scopeRun s [p]) (scopeNest none scopes)
       let after := scopeRun none scopes
       let eff := effective effectiveRule ex slot
       let out := match evaluateHead gate effectiveRule ex slot t with
